@@ -1,1 +1,124 @@
-From InvokeVerif Require Import Corr.C10Corr.
+(** C10 -- CLI task names, collection lookup and listings agree for every
+    namespace tree.  Statements only; proofs in Proofs/C10_names.v,
+    Proofs/CollStrings.v.
+
+    Kinds: full ([C10_transform_consistent]), refuted (four witnesses that the
+    faithful model violates the agreement: F-C10a..d), bounded (finite sweeps
+    of the agreement inside the guards -- these are TESTS run by the kernel,
+    not the property; the general [_partial] statements they sample are
+    written out in the comments). *)
+From InvokeVerif Require Import Model.CollModel Spec.C10Spec Corr.C10Corr
+     Proofs.CollStrings Proofs.C10_names.
+
+(** Underscore/dash normalisation is consistent: idempotent, the later of two
+    normalisations wins (so a name passed down through collections with
+    different settings ends up in the spelling of the collection that looks it
+    up), and it acts on each segment of a dotted path separately, i.e.
+    commutes with dotted-path composition. *)
+Theorem C10_transform_consistent :
+  (forall ad s, transform ad (transform ad s) = transform ad s) /\
+  (forall a b s, transform a (transform b s) = transform a s) /\
+  (forall ad s, split_char "." (transform ad s) = map (transform ad) (split_char "." s)) /\
+  (forall ad segs, segs <> [] -> Forall (fun x => contains_char "." x = false) segs ->
+                   transform ad (join "." segs) = join "." (map (transform ad) segs)).
+Proof.
+  split; [exact transform_idem|]. split; [exact transform_absorb|].
+  split; [exact split_transform | exact transform_join].
+Qed.
+
+(** The agreement "accepted on the command line <-> normalised name that
+    lookup resolves, and the accepted token runs the task lookup returns" is
+    FALSE of the faithful model:
+    (F-C10a) a collection below the root whose default is a sub-collection:
+    its name resolves but is no parser context; *)
+Theorem C10_cli_iff_lookup_refuted_default_subcollection :
+  exists s c n, build s = Ok c /\ script_clean s = true /\ ns_wf c = true /\
+                no_binding_aliases c = true /\
+                contains c n = Ok true /\ normalized (c_auto_dash c) n = true /\
+                (exists r, parser_of c = Ok r /\ preg_primary r n = None) /\
+                name_ok (c_auto_dash c) n (model_nobs c n) = false.
+Proof. exact refuted_default_subcollection. Qed.
+
+(** (F-C10b) aliases given to add_task(aliases=...) resolve, are neither
+    parser contexts nor listed. *)
+Theorem C10_cli_iff_lookup_refuted_binding_alias :
+  exists s c n, build s = Ok c /\ script_clean s = true /\ ns_wf c = true /\
+                no_dsub_below true c = true /\
+                contains c n = Ok true /\ normalized (c_auto_dash c) n = true /\
+                (exists r, parser_of c = Ok r /\ preg_primary r n = None) /\
+                name_ok (c_auto_dash c) n (model_nobs c n) = false /\
+                listing_ok c 1 (model_rows c 1) = false /\
+                listing_ok c 2 (model_rows c 2) = false.
+Proof. exact refuted_binding_alias. Qed.
+
+(** Inside the guards (clean script, no default sub-collection below the root,
+    no binding-level aliases) the agreement holds on every tree of the sweep:
+    128 trees (root > [top] + sub > [my_task (own alias?, default?)] + in_ner >
+    [deep]; every auto-dash combination; root default on/off) x 45 candidate
+    tokens in every spelling.  A TEST: the general statement
+      forall s c n, build s = Ok c -> script_clean s = true ->
+        no_dsub_below true c = true -> no_binding_aliases c = true ->
+        name_ok (c_auto_dash c) n (model_nobs c n) = true
+    is not proved. *)
+Theorem C10_cli_iff_lookup_bounded_128 :
+  names_sweep (sweep_scripts false) = true /\
+  List.length (sweep_scripts false) = 128 /\ List.length names_vocab = 45.
+Proof. split; [exact names_bounded | split; apply sweep_size]. Qed.
+
+(** Listings: (F-C10c) the json listing shows own names, not the names bound; *)
+Theorem C10_listing_once_refuted_json :
+  exists s c, build s = Ok c /\ script_clean s = true /\ ns_wf c = true /\
+              no_binding_aliases c = true /\
+              listing_ok c 1 (model_rows c 1) = true /\
+              listing_ok c 2 (model_rows c 2) = true /\
+              listing_ok c 3 (model_rows c 3) = false /\
+              contains c "orig" = Ok false.
+Proof. exact refuted_json. Qed.
+
+(** (F-C10d) with different auto-dash settings in root and sub-collection the
+    listing shows a spelling the command line does not accept. *)
+Theorem C10_listing_once_refuted_mixed_autodash :
+  exists s c, build s = Ok c /\ script_clean s = true /\ ns_wf c = true /\
+              no_binding_aliases c = true /\ bound_by_own_names c = true /\
+              listing_ok c 1 (model_rows c 1) = false /\
+              model_rows c 1 = Ok [(0, "sub.my-task", [], Some 1)] /\
+              (exists r, parser_of c = Ok r /\ preg_primary r "sub.my-task" = None /\
+                         preg_primary r "sub.my_task" = Some "sub.my_task").
+Proof. exact refuted_mixed_autodash. Qed.
+
+(** Inside the guards (uniform spelling; for json also bindings by own names)
+    every binding is listed exactly once under its bound name with exactly its
+    aliases, in all three formats, on each of the 192 trees of the sweep
+    (default sub-collections at any level included; 48 of them inside the json
+    guard).  A TEST; the general statement
+      forall s c, build s = Ok c -> script_clean s = true -> no_binding_aliases c = true ->
+        keys_normalized (c_auto_dash c) c = true ->
+        listing_ok c 1 (model_rows c 1) = true /\ listing_ok c 2 (model_rows c 2) = true /\
+        (bound_by_own_names c = true -> listing_ok c 3 (model_rows c 3) = true)
+    is not proved. *)
+Theorem C10_listing_once_bounded_192 :
+  listing_sweep (sweep_scripts true) = true /\ List.length (sweep_scripts true) = 192.
+Proof. split; [exact listing_bounded | apply sweep_size]. Qed.
+
+(** Non-vacuity: the sweeps contain trees inside every guard that exercise
+    aliases, a default task shortcut and three levels. *)
+Example C10_example_in_guards :
+  exists s c, In s (sweep_scripts false) /\ build s = Ok c /\ ns_wf c = true /\ script_clean s = true /\
+              no_dsub_below true c = true /\ no_binding_aliases c = true /\
+              contains c "sub" = Ok true /\ contains c "sub.al-x" = Ok true /\
+              contains c "sub.in-ner.deep" = Ok true /\
+              (exists r, parser_of c = Ok r /\ preg_primary r "sub" = Some "sub.my-task" /\
+                         preg_primary r "sub.in-ner" = Some "sub.in-ner.deep").
+Proof.
+  exists (ISub None true (Node [])
+            [ITask (mkTask 1 "top" ["t_al"] false) None [] None;
+             ISub (Some "sub") true (Node [])
+                  [ITask (mkTask 2 "my_task" ["al_x"] false) None [] (Some true);
+                   ISub (Some "in_ner") true (Node [])
+                        [ITask (mkTask 3 "deep" [] false) None [] (Some true)] None false]
+                  None true] None false).
+  eexists. split; [vm_compute; tauto|].
+  split; [vm_compute; reflexivity|].
+  repeat split; try (vm_compute; reflexivity).
+  eexists. repeat split; vm_compute; reflexivity.
+Qed.
